@@ -321,6 +321,14 @@ def sx_key(k):
 
 
 # --------------------------------------------------------------------------------------------- the check
+def is_known(ctx, sig):
+    """Would ctx.fail file this signature under a known finding? (those are not shrunk: budget goes to new failures)"""
+    sg = dict(sig)
+    sg.setdefault("property", ctx.pid)
+    return any(f.get("property") == ctx.pid and all(sg.get(k) == v for k, v in f.get("match", {}).items())
+               for f in ctx.known.get("findings", []))
+
+
 def run(ctx):
     ctx.rule = ("case = one generated program with its query (families: findall over non-recursive programs; structural "
                 "recursion over lists/peano/acyclic graphs; tabled positive recursion; one predicate's clause index with "
@@ -553,7 +561,7 @@ def run(ctx):
     for what, sig, family, prog, q in fails:
         key = json.dumps(sig, sort_keys=True)
         sig = dict(sig)
-        if key in reported:
+        if key in reported or is_known(ctx, sig):
             # further occurrences of the same kind of difference: recorded without shrinking again
             ctx.fail("%s: program `%s` query %s" % (what, " ".join(U.pl_clause(c) for c in prog), U.pl_term(q)),
                      {"family": family, "program": tojson(prog), "query": tojson(q), "text": U.pl_program(prog)}, sig)
